@@ -740,6 +740,16 @@ def binop(I: Interp, op: ast.operator, a: V, b: V) -> V:
         if isinstance(b, VConst) and hasattr(b.py, "keys"):
             return out
     if isinstance(a, VBytes) and isinstance(b, VBytes) and isinstance(op, ast.Add):
+        from . import strings
+        if isinstance(a, strings.AsciiBytes) or isinstance(b, strings.AsciiBytes):
+            def st(x: VBytes) -> Any:
+                if isinstance(x, strings.AsciiBytes):
+                    return x.s
+                c = x.concrete()
+                if c is None or any(ch > 127 for ch in c):
+                    raise Unsupported("ascii-bytes + symbolic raw bytes")
+                return z3.StringVal(c.decode("ascii"))
+            return strings.AsciiBytes(z3.Concat(st(a), st(b)))
         return VBytes(z3.Concat(a.t, b.t), a.mutable)
     if isinstance(a, VBytes) and is_intlike(b) and isinstance(op, ast.Mult):
         n = VInt(as_int(I, b)).concrete()
@@ -750,7 +760,8 @@ def binop(I: Interp, op: ast.operator, a: V, b: V) -> V:
     if isinstance(a, VStr) and isinstance(b, VStr) and isinstance(op, ast.Add):
         if a.s is not None and b.s is not None:
             return VStr(a.s + b.s)
-        if a.t is not None or b.t is not None:
+        opaque = lambda x: x.s is None and x.t is None  # noqa: E731
+        if (a.t is not None or b.t is not None) and not opaque(a) and not opaque(b):
             return VStr(t=z3.Concat(str_term(a), str_term(b)))
         return VStr(parts=(a.parts or [a.s]) + (b.parts or [b.s]))
     if isinstance(a, VStr) and isinstance(op, ast.Mod):
@@ -872,6 +883,12 @@ def bitop(I: Interp, op: ast.operator, x: Any, y: Any, xc: int | None, yc: int |
                 s, w = sh
                 # (x & (mask<<s)) == ((x div 2^s) mod 2^w) * 2^s ; exact for all ints x
                 return ((x / (2 ** s)) % (2 ** w)) * (2 ** s)
+            if yc < 0:
+                sh = _mask_shape(~yc)
+                if sh is not None:
+                    s, w = sh
+                    # x & ~m == x - (x & m)   (two's complement, any int x)
+                    return x - ((x / (2 ** s)) % (2 ** w)) * (2 ** s)
         raise Unsupported("x & y with non-mask operand")
     if isinstance(op, ast.BitOr):
         # a | b == a + b when the operands have no common set bit: proved as a side obligation
